@@ -299,7 +299,7 @@ def run_property(prop, module, conds, tier, seed=0, extra_evidence=None, extra_r
     violations = 0
     known_hit = []
     inconclusive = []
-    replay_dir = os.path.join(VERIF, "evidence", "replays", prop)
+    replay_dir = os.path.join(os.environ.get("VERIF_EVIDENCE_DIR") or os.path.join(VERIF, "evidence"), "replays", prop)
     for r in results:
         name, k, twin = r["key"]
         c = bycond[name]
@@ -431,6 +431,9 @@ def run_property(prop, module, conds, tier, seed=0, extra_evidence=None, extra_r
 
 
 def write_evidence(prop, ev):
-    os.makedirs(os.path.join(VERIF, "evidence"), exist_ok=True)
-    with open(os.path.join(VERIF, "evidence", prop + ".json"), "w") as f:
+    # VERIF_EVIDENCE_DIR: only for my own seed sweeps, so that runs against patched scratch
+    # worktrees do not overwrite the evidence of the real tree
+    d = os.environ.get("VERIF_EVIDENCE_DIR") or os.path.join(VERIF, "evidence")
+    os.makedirs(d, exist_ok=True)
+    with open(os.path.join(d, prop + ".json"), "w") as f:
         json.dump(ev, f, indent=1, default=str)
